@@ -242,9 +242,9 @@ def monOp (rest : String) : String :=
       -> good | BAD <reason>
 -/
 
-def parseSlots (t : String) : Option (List Slot × Nat) :=
+def parseSlots (t : String) : Option (List RASlot × Nat) :=
   if t = "-" then some ([], 1) else
-  (t.splitOn ",").foldlM (fun (acc : List Slot × Nat) x =>
+  (t.splitOn ",").foldlM (fun (acc : List RASlot × Nat) x =>
     match (x.splitOn ":").mapM String.toNat? with
     | some [size, align, flags, use] =>
       let (sl, al) := newSlot acc.2 size align flags
@@ -265,18 +265,18 @@ def rasmOp (rest : String) : String :=
   | _ => "bad-op"
 
 /-- the property of the slot layout, judged on the implementation's numbers -/
-def slotsMonitor (ss : List Slot) (al stackSize : Nat) (placed : List (Nat × Nat)) : Option String :=
+def slotsMonitor (ss : List RASlot) (al stackSize : Nat) (placed : List (Nat × Nat)) : Option String :=
   let ids := placed.map Prod.fst
   if !(ids.length == ss.length && (List.range ss.length).all ids.contains) then some "order-not-a-permutation" else
-  let real : List (Slot × Nat) := placed.filterMap fun (i, off) =>
+  let real : List (RASlot × Nat) := placed.filterMap fun (i, off) =>
     let s := ss.getD i default
     if s.isStackArg then none else some (s, off)
   if !(al != 0 && stackSize % al == 0) then some "stack-size-not-aligned" else
   if !(real.all fun (s, off) => s.align != 0 && off % s.align == 0) then some "slot-misaligned" else
   if !(real.all fun (s, off) => decide (off + s.size ≤ stackSize)) then some "slot-outside-stack" else
   if !((List.range real.length).all fun i => (List.range real.length).all fun j =>
-        i == j || (let a : Slot × Nat := real.getD i default
-                   let b : Slot × Nat := real.getD j default
+        i == j || (let a : RASlot × Nat := real.getD i default
+                   let b : RASlot × Nat := real.getD j default
                    decide (a.2 + a.1.size ≤ b.2) || decide (b.2 + b.1.size ≤ a.2))) then some "slots-overlap" else
   if !(real.all fun (s, _) => decide (s.align ≤ al)) then some "allocator-alignment-too-small" else
   none
